@@ -12,6 +12,8 @@ Module G.
 Section Real.
 Variable pol : policy.
 Variable val : tag -> string.          (* the value the (deterministic) body produces for the iteration tagged t *)
+Variable tst : status.                 (* the status carried by the termination tokens that reach L (COMPLETED, or
+                                          SKIPPED when no instance iterates: not decided by this model) *)
 Variable cont : tag -> bool.
 Variable insts : list tag.
 Variable d : nat.
@@ -22,7 +24,7 @@ Definition conv (a : atok) : larr :=
   match a with
   | AT t => LTok (Tok (render t) (val t))
   | AI t => LIter (render t)
-  | _ => LTerm Completed
+  | _ => LTerm tst
   end.
 (* state of L: the state of LoopOutputStep.run and (ghost) the tokens it has read *)
 Definition RS : Type := (lstate * list atok)%type.
@@ -651,7 +653,7 @@ Theorem loop_network s :
      let k := kof s in
      (forall p, In p insts -> (forall j, j < k p -> cont (itag p j) = true) /\ cont (itag p (k p)) = false) /\
      Permutation (lout (fst (gls s))) (map (fun p => lexpected pol (p, iters p (k p))) insts) /\
-     lfinal (fst (gls s)) = Some (match insts with [] => Skipped | _ => Completed end)).
+     lfinal (fst (gls s)) = Some (get_status (reduce_statuses [Skipped; tst]) (match insts with [] => true | _ => false end))).
 Proof.
   intros R. pose proof (inv3_reach s R) as I3.
   assert (Hne : forall p, In p insts -> p <> []).
@@ -705,8 +707,8 @@ Proof.
           destruct (r_eside s I3 a Ha') as [->|X]; [contradiction|exact X]. }
       rewrite P0. unfold all_larr, insts'. rewrite map_map. rewrite concat_map, map_map.
       apply concat_perm. intros p _. apply conv_X. }
-    destruct (loop_step_thm pol insts' (map conv h) Hok Hnd' Hperm) as (_ & _ & T3 & T4).
-    assert (EL : fst (gls s) = loop_run pol (map conv h ++ [LTerm Completed])).
+    destruct (loop_step_thm_st pol insts' (map conv h) tst Hok Hnd' Hperm) as (_ & _ & T3 & T4).
+    assert (EL : fst (gls s) = loop_run pol (map conv h ++ [LTerm tst])).
     { rewrite (r_h0 s I3), Eh, map_app. reflexivity. }
     rewrite EL. split.
     + rewrite T3. unfold insts'. rewrite map_map. apply Permutation_refl.
